@@ -18,7 +18,7 @@ RULE = ("models from three sources: (a) read from generated Hy source over every
         "compound sub-form of the repository's own *.hy files. Non-trivial = the model contains an "
         "f-string, a bracket string or a sugar form; distinct by rendered case.")
 FLOOR = {"quick": 2000, "thorough": 2000}
-BUDGET = {"quick": 22, "thorough": 480}
+BUDGET = {"quick": 18, "thorough": 480}
 CASE_TIMEOUT = 20
 NEEDS_EVENTS = True
 ANCHORS = ["hy.core.hy_repr:hy_repr", "hy.core.hy_repr:_base_repr", "hy.core.hy_repr:_cat"]
@@ -68,18 +68,18 @@ def setup_worker(tier, seed):
 
 
 def cases(seed, tier, shard, nshards):
-    corpus = [c for i, c in enumerate(G.corpus_irs()) if i % nshards == shard and c[1]["t"] != "FComp"]
+    corpus = G.corpus_iter(shard, nshards)
     depth = 3 if tier == "quick" else 4
-    ci = i = 0
+    i = 0
     while True:
         rng = rng_for(seed, ID, shard, i)
         k = i % 5
         i += 1
         focus = G.FOCI[(i // 5) % len(G.FOCI)]
         if k == 0:
-            if ci < len(corpus):
-                yield {"kind": "corpus", "src": corpus[ci][0], "m": corpus[ci][1]}
-                ci += 1
+            item = next(corpus, None)
+            if item is not None and item[1]["t"] != "FComp":
+                yield {"kind": "corpus", "src": item[0], "m": item[1]}
             continue
         ir = G.gen_ir(rng, rng.choice([1, 2, depth]), "readable", focus)
         if k in (1, 2):
@@ -319,8 +319,10 @@ NORMALISERS = [
     ("fspec-nested-debug-text", lambda ir: any(_spec_debug(j) for j, _, _ in G.walk(ir)), _n_spec_debug),
     ("fcomponent-multi-spec", lambda ir: "multi-spec" in G.features(ir), _n_multispec),
     ("bracket-string-leading-newline", lambda ir: "leading-newline" in G.features(ir), _n_leading_nl),
-    ("fspec-brace-not-doubled", lambda ir: "spec-braces" in G.features(ir), _n_spec_braces),
-    ("fspec-string-not-escaped", _has_spec_escape, _n_spec_escape),
+    # one mechanism: the printer inserts a format-spec String verbatim ('{' not doubled; in a
+    # non-bracket f-string backslash, '"' and CR not escaped)
+    ("fspec-string-verbatim", lambda ir: "spec-braces" in G.features(ir) or _has_spec_escape(ir),
+     lambda ir: _n_spec_escape(_n_spec_braces(ir))),
     ("dotted-sugar-not-a-dotted-identifier", lambda ir: any(_bad_dotted(j) for j, _, _ in G.walk(ir)), _n_dots_part),
     ("fcomponent-value-starts-with-brace", lambda ir: "fcomp-brace-value" in G.features(ir), _n_brace_value),
     ("unquote-of-at-dotted-form", lambda ir: any(_at_dotted(j) for j, _, _ in G.walk(ir)), _n_at_dotted),
